@@ -94,10 +94,12 @@ PROPS = {
                    "loop of EngineManagerRunner::run picks the block it hands to durable storage (lifted mechanically) returns exactly block "
                    "max(previously submitted + 1, durable head + 1) -- 'each submitted block directly follows the previously submitted one or "
                    "the current durable head' -- and returns it as soon as it is readable; EngineManager::get_block returns, from the cache or "
-                   "from durable storage (A5: the store answers with the number asked for), only THE block with the requested number.",
-        level_note="Not decided: interleavings between tasks (each closure run under the watch channel's lock is taken as atomic, A4), the "
-                   "two statements around the persist loop's closure (queue_next = block.number().next(); interface.queue_next_block) which "
-                   "sit in a nested async block of a scope::run! macro, the gossip runner's number check, durability of the EngineInterface (A5; incoming persisted states are assumed to pass BlockStoreState::verify). "
+                   "from durable storage (A5: the store answers with the number asked for), only THE block with the requested number. "
+                   "One whole iteration of that persistence loop (the nested async block, lifted mechanically as `persist_iteration`): the block handed to "
+                   "EngineInterface::queue_next_block directly follows `queue_next` or the durable head of an observed store state (precondition of "
+                   "the call), and after a successful iteration `queue_next` is exactly the submitted number + 1. Unit handlers: the get_block RPC "
+                   "handler answers a request for n with block n or nothing.",
+        level_note="Not decided: interleavings between tasks (each closure run under the watch channel's lock is taken as atomic, A4), durability of the EngineInterface (A5; incoming persisted states are assumed to pass BlockStoreState::verify). "
                    "Two statements of queue_block are abstracted by anchor-exact stubs (wait_for predicate; send_if_modified(|bs| bs.try_push(block))). "
                    "A7: stored block numbers < 2^64-1.",
         technique="contract-based deductive verification (Verus on extracted real functions; data-structure invariant + whole-view postconditions)",
